@@ -66,6 +66,10 @@ def check(run):
     with R.as_rule('C03.rsv1gate'):
         C06.wiring(R)        # compressed frames round-trip only if the deflate contexts are configured as negotiated
     closep(R)
+    from . import C08
+    R.rule('C03.closeaccepted', 'every accepted close() writes its Close frame: a rejected close() (oversize reason) leaves the '
+                                'state alone, so the next, valid, close() is not taken for a repeat; CLOSE has one producer', 4)
+    C08.onlyclose(R, RID='C03.closeaccepted')
 
 
 def send_sites(R, g):
